@@ -241,6 +241,9 @@ def compare(kind, p, how, impl, model):
         return f"model error: {model['model_error']}"
     if kind == "ilp_full":
         return compare_ilp(p, impl, model)
+    if kind in ("part", "pack") and model.get("bins") == [] and p.get("out") in ("largest", "smallest", "extreme", "difference"):
+        # max()/min() of an empty list of sums: Python raises ValueError (Model/Output.v documents that zmax [] = 0 diverges here)
+        return None if impl.get("exc") == "ValueError" else f"impl {short(impl)} vs model: no bins, so max/min of the sums must raise ValueError"
     if "exc" in impl or "exc" in model:
         if impl.get("exc") != model.get("exc"):
             return f"impl {short(impl)} vs model {short(model)}"
